@@ -471,6 +471,57 @@ func c15StallSetup(k connCfg) func(c *fw.Ctx, name string) explore.Setup {
 	}
 }
 
+// Two Pings in flight, the first one's frame stuck in a transport that accepts
+// nothing: the second Ping (1 s context) must still return once its context ends.
+func c15TwoStalledSetup(k connCfg) func(c *fw.Ctx, name string) explore.Setup {
+	return func(c *fw.Ctx, name string) explore.Setup {
+		return func(w *vs.World) func(bool) {
+			p := vpipe.New()
+			p.Window = 1
+			var errB error
+			var doneB bool
+			var atB int64
+			w.GoHarness("main", true, func() {
+				conn := mkConn(p, k)
+				bg := vctx.Background()
+				conn.CloseRead(bg)
+				w.GoHarness("pingerA", false, func() { conn.Ping(bg) })
+				w.GoHarness("pingerB", true, func() {
+					p.WaitOut("first-ping-begun", func(out []byte) bool { return len(out) > 0 })
+					ctx, cancel := vctx.WithTimeout(bg, time.Second)
+					defer cancel()
+					t0 := w.Now
+					errB = conn.Ping(ctx)
+					atB = w.Now - t0
+					doneB = true
+				})
+			})
+			return func(complete bool) {
+				if !complete {
+					return
+				}
+				locus := "second-ping-behind-stalled-ping/" + k.String()
+				if w.Panic != "" {
+					violate(c, w, name, "C15/panic/"+locus, w.Panic)
+					return
+				}
+				c.OutcomeStr(fmt.Sprintf("%s|B=%v/%v@%dms", name, doneB, errB != nil, atB/1e6))
+				if !doneB {
+					violate(c, w, name, "C15/ping-never-returns/"+locus, fmt.Sprintf("the second Ping's context ended after 1 s while the first Ping's frame was stuck in the transport; it never returned: stuck %v", stuckTasks(w)))
+					return
+				}
+				if errB == nil {
+					violate(c, w, name, "C15/ping-nil-without-own-pong/"+locus, "the second Ping returned nil although the peer never answered")
+					return
+				}
+				if atB > int64(2500*time.Millisecond) {
+					violate(c, w, name, "C15/ping-outlives-context/"+locus, fmt.Sprintf("the second Ping returned %v after it was called; its context ended after 1 s", time.Duration(atB)))
+				}
+			}
+		}
+	}
+}
+
 func c15Scenarios(tier string) []scenario {
 	var scs []scenario
 	cfg := explore.Config{P: 1, T: 0, E: 0, Horizon: 60e9}
@@ -504,6 +555,7 @@ func c15Scenarios(tier string) []scenario {
 	}
 	for _, k := range []connCfg{{Client: false}, {Client: true}} {
 		scs = append(scs, scenario{Name: "stalled-behind-writer/" + k.String(), Cfg: explore.Config{P: pst, T: 1, Horizon: 60e9}, Setup: c15StallSetup(k)})
+		scs = append(scs, scenario{Name: "second-ping-behind-stalled-ping/" + k.String(), Cfg: explore.Config{P: pst, T: 1, Horizon: 60e9}, Setup: c15TwoStalledSetup(k)})
 	}
 	return scs
 }
